@@ -52,6 +52,8 @@ REACTIONS = {
     "four": ({"spec": None}, False),
     "syn-zero": ({"spec": None}, False),
     "syn-dpd": ({"spec": None}, True),
+    "syn-can": ({"spec": None}, False),
+    "syn-mixed": ({"spec": None}, False),
 }
 
 
@@ -96,6 +98,18 @@ def _load_reaction(key):
         # over -1, 0, 1, so whether vanishing amplitudes exist depends on the alignment
         r = R.build_reaction(R.three_body_spec(1, 0, 1, 0, [(0, R.P("R1", 0, 1.2, -1), False, False)],
                                                parities=(-1, 1, -1, -1)))
+    elif key == "syn-can":
+        # canonical formalism with parity-coupled amplitudes: the parity-partner mapping of
+        # the name generator depends on all three naming flags
+        r = R.build_reaction(R.three_body_spec(1, 0, 1, 0, [(0, R.P("R1", 1, 1.2, -1), True, True)],
+                                               parities=(-1, -1, -1, -1), formalism="canonical-helicity"))
+    elif key == "syn-mixed":
+        # a half-integer-spin and an integer-spin resonance in the helicity formalism: a
+        # lineshape with form factor is documented to raise ValueError for the first (no L)
+        r = R.build_reaction(R.three_body_spec("1/2", "1/2", 0, 0,
+                                               [(2, R.P("Rh", "3/2", 1.9, 1), False, False),
+                                                (0, R.P("Ri", 1, 1.2, -1), False, False)],
+                                               parities=(1, 1, -1, -1)))
     else:
         r = R.build_reaction(_syn_spec())
     if zero_based:
@@ -107,6 +121,23 @@ def _load_reaction(key):
 
 def alphabet(key: str, tier: str) -> list[list]:
     zero_based = REACTIONS[key][1]
+    if key == "syn-can":
+        return [
+            ["flag", "insert_ls_combinations", False],
+            ["flag", "insert_ls_combinations", True],
+            ["flag", "insert_child_helicities", True],
+            ["flag", "insert_child_helicities", False],
+            ["flag", "insert_parent_helicities", True],
+            ["assign", 0, "bwff"],
+            ["formulate"],
+        ]
+    if key == "syn-mixed":
+        # resonance 0 = Rh (half-integer spin), 1 = Ri; "bwff" on Rh makes formulate() raise
+        # the documented ValueError, which is an observable outcome like any other
+        return [
+            ["assign", 0, "bwff"], ["assign", 0, "bw"], ["assign", 1, "bwff"], ["assign", 1, "analytic"],
+            ["formulate"],
+        ]
     # BW with form factor needs L: canonical formalism or integer-spin resonances
     ff_ok = key in {"gpipi-can", "omega", "four", "syn-zero"}
     ops = [
@@ -134,6 +165,8 @@ def alphabet(key: str, tier: str) -> list[list]:
 
 def bases(key: str) -> list[list]:
     out = [[]]
+    if key == "syn-can":
+        return [[], [["flag", "insert_child_helicities", True]]]
     if REACTIONS[key][1]:
         out.append([["set", "spin_alignment", "dpd1"]])
     elif key in {"ksp"}:
@@ -160,8 +193,13 @@ def histories(key: str, tier: str, two_builders: bool, deep: bool = False) -> li
                 out.append([*prefix, [0, "formulate"]])
         return out
     out = [[[0, "formulate"]]]
+    if key == "syn-mixed":
+        depth = 4
     for d in range(1, depth):
         for prefix in itertools.product(ops, repeat=d):
+            if key == "syn-mixed" and d == 3 and (
+                    ["formulate"] not in prefix[:2] or prefix[2] == ["formulate"]):
+                continue  # depth 4 only for histories that formulate, re-assign, formulate
             out.append([*[[0, *o] for o in prefix], [0, "formulate"]])
     return out
 
@@ -171,7 +209,8 @@ CHUNK_SIZE = 40
 
 def cases(tier, seed):
     out = []
-    keys = ["ksp-dpd", "ksp", "omega", "four", "syn-zero"] if tier == "quick" else [k for k in REACTIONS if k != "kspfull-dpd"]
+    keys = ["ksp-dpd", "ksp", "omega", "four", "syn-zero", "syn-can", "syn-mixed"] if tier == "quick" \
+        else [k for k in REACTIONS if k != "kspfull-dpd"]
     # two builders on two DIFFERENT reactions (same particles, restricted helicity set)
     for base in bases("kspfull-dpd"):
         hs = [h for h in histories("kspfull-dpd", tier, True) if len(h) <= (3 if tier == "quick" else 4)]
@@ -237,8 +276,10 @@ def _dyn_builder(tag):
         create_relativistic_breit_wigner_with_ff,
     )
 
+    from ampform.dynamics.builder import create_analytic_breit_wigner  # noqa: PLC0415
+
     return {"none": create_non_dynamic, "bw": create_relativistic_breit_wigner,
-            "bwff": create_relativistic_breit_wigner_with_ff}[tag]
+            "bwff": create_relativistic_breit_wigner_with_ff, "analytic": create_analytic_breit_wigner}[tag]
 
 
 def _alignment(tag):
@@ -347,6 +388,21 @@ def model_digest(model) -> dict:
     }
 
 
+DOCUMENTED_ERROR = "Angular momentum is not defined"
+
+
+def formulate_digest(builder) -> dict:
+    """Digest of builder.formulate(); the documented ValueError of a form-factor lineshape
+    on a decay without L is an outcome of its own."""
+    try:
+        model = builder.formulate()
+    except ValueError as exc:
+        if DOCUMENTED_ERROR not in str(exc):
+            raise
+        return {"raised": f"ValueError: {exc}"}
+    return model_digest(model)
+
+
 def two_resonance_node(topologies) -> bool:
     from vp.ref import helicity as H  # noqa: PLC0415
 
@@ -377,12 +433,11 @@ def run_history(key: str, base: list, history: list, check_fresh: bool = True, s
             apply_op(builders[b_idx], reactions[b_idx], op, states[b_idx])
     for step, op in enumerate(history):
         b_idx = op[0]
-        model = apply_op(builders[b_idx], reactions[b_idx], op[1:], states[b_idx])
-        if model is None:
+        if op[1] != "formulate":
+            apply_op(builders[b_idx], reactions[b_idx], op[1:], states[b_idx])
             continue
-        entry = {"step": step, "builder": b_idx, "digest": model_digest(model)}
-        again = builders[b_idx].formulate()
-        entry["again"] = model_digest(again)
+        entry = {"step": step, "builder": b_idx, "digest": formulate_digest(builders[b_idx])}
+        entry["again"] = formulate_digest(builders[b_idx])
         entry["topologies"] = len(builders[b_idx].adapter.registered_topologies)
         entry["clash_possible"] = two_resonance_node(builders[b_idx].adapter.registered_topologies) and \
             len(builders[b_idx].adapter.registered_topologies) > 1
@@ -394,7 +449,7 @@ def run_history(key: str, base: list, history: list, check_fresh: bool = True, s
             clear_caches()
             fresh = fresh_builder_for(load_reaction(key, sub=(sub and entry["builder"] == 1)),
                                       entry["state"], entry["_topologies"])
-            entry["fresh"] = model_digest(fresh.formulate())
+            entry["fresh"] = formulate_digest(fresh)
     for entry in out["formulates"]:
         topologies = entry.pop("_topologies")
         if check_fresh:
@@ -426,7 +481,7 @@ def pristine_digests(key: str, configs: dict) -> dict:
                 os.close(r)
                 topologies = pickle.loads(base64.b64decode(cfg["topologies"]))  # noqa: S301
                 b = fresh_builder_for(load_reaction(key, sub=cfg["sub"]), cfg["state"], topologies)
-                data = json.dumps(model_digest(b.formulate()))
+                data = json.dumps(formulate_digest(b))
             except BaseException as exc:  # noqa: BLE001
                 data = json.dumps({"error": f"{type(exc).__name__}: {exc}"})
             with os.fdopen(w, "w") as fh:
@@ -440,7 +495,7 @@ def pristine_digests(key: str, configs: dict) -> dict:
 
 
 def _diff(a: dict, b: dict) -> list[str]:
-    return [k for k in a if a[k] != b.get(k)]
+    return [k for k in sorted(set(a) | set(b)) if a.get(k) != b.get(k)]
 
 
 def eval_case(case):
@@ -505,6 +560,9 @@ def eval_case(case):
             tags_region = []
             if entry["clash_possible"]:
                 tags_region.append("registered-topologies-with-two-resonance-node")
+            if "raised" in entry["digest"]:
+                outcomes["formulate-raised-documented-ValueError"] = outcomes.get(
+                    "formulate-raised-documented-ValueError", 0) + 1
             d = _diff(entry["digest"], entry["again"])
             if d:
                 viol.append({"msg": f"second formulate() differs in {d}: {where}",
